@@ -60,11 +60,6 @@ def Problem.renameConflictingSymbols (p : Problem) : Problem :=
   let conf := p.preds.filter (·.arity = 0)
   { p with formulas := p.formulas.map fun a => { a with formula := a.formula.renameSym conf } }
 
-/-- `enumerate()` -/
-def indexFrom {α} (k : Nat) : List α → List (Nat × α)
-  | [] => []
-  | x :: xs => (k, x) :: indexFrom (k + 1) xs
-
 def Problem.uniqueNames (p : Problem) : Problem :=
   { p with formulas := (indexFrom 0 p.formulas).map fun (i, a) =>
       { a with name := "formula_" ++ toString i ++ "_" ++ a.name } }
